@@ -20,23 +20,25 @@ TRUSTED = ("CPython ast", "S1 particle layout", "numpy.loadtxt semantics")
 TECHNIQUE = "static analysis: polynomial interpretation of the particle header bookkeeping against the layout; path and pairing rules"
 
 from . import loader_folds as lfold
+from . import layout_folds as lay
 
 
 def r1_r2(run, tree):
     run.rule("C14.R1", "particle header layout; typed read/skip agreement", "D1 + S1", "S1", floor=5)
-    io.check_part_header(run, tree)
-    io.check_record_locator(run, tree)
+    lay.check_part_header(run, tree)
+    lay.check_record_locator(run, tree)
 
 
 def r3(run, tree):
     run.rule("C14.R3", "row alignment across variables", "path rule", "", floor=3)
-    io2.check_part_rows(run, tree)
+    lay.check_part_header(run, tree)
 
 
 def r4_r5(run, tree):
     run.rule("C14.R4", "sink parsing; empty vs missing", "path + pairing rules", "", floor=8)
     io2.check_sink(run, tree)
-    io2.check_scale_label(run, tree)
+    lay.check_bodies(run, tree, aspects=("values",))
+    lay.check_part_header(run, tree)
 
 
 def r6(run, tree):
